@@ -18,6 +18,7 @@ import Kap.Proofs.C12Join
 import Kap.Proofs.C12PairL
 import Kap.Proofs.C12On
 import Kap.Proofs.C12BatchD
+import Kap.Proofs.C12OnFwd
 namespace Kap.Props.C12
 open Kap.C12 Kap.C12.Spec
 
@@ -331,17 +332,105 @@ theorem on_lowMarkOld_ignores_unreported_first_parent :
     JOn.lowMarkOfOld 2 "g" [((1, "g"), 5)] = some 5 ∧ JOn.lowMarkOfOld 2 "g" [((0, "g"), 5)] = none ∧
     JOn.lowMarkOf 2 "g" [((1, "g"), 5)] = none ∧ JOn.lowMarkOf 2 "g" [((0, "g"), 5)] = none := by decide
 
+/-- **on(): `matchPoints` is a transducer in front of the plain join** — for EVERY arrival order, any number of
+parents, any times: no decision of `matchPoints` depends on the state of the join groups, and the join sets a
+run with `on()` emits (arrivals, then Finish) are exactly the sets the plain join node emits on
+`JOn.forwarded`, the list of points `matchPoints` hands to the groups (purged specific points alone; a specific
+point followed by its re-tagged match point; at Finish the specific points still cached). -/
+theorem on_run_is_join_of_forwarded (cfg : JCfg) (arrivals : List (Nat × JMsg × Bool × String)) :
+    (JOn.run cfg arrivals).2.1 = (JNode.run cfg (feedOps (JOn.forwarded cfg arrivals))).2.1 :=
+  JOn.run_eq_node_run cfg arrivals
+
+/-- **on(): the output is the occurrence pairing of what was forwarded** (the part of the pairing clause that is
+proved) — for every arrival order: when the forwarded points come from parents in range and, within every
+(specific) group, every parent's forwarded rounded times never go back — two decidable conditions on the
+computable list `JOn.forwarded` — the joined points of the whole run are, up to permutation, the
+specification's plain-join output over the forwarded points: per group and rounded time one point per
+occurrence index. What is missing for the full clause is `on_forwarded_is_pairing_stmt`. -/
+theorem on_pairs_specific_with_general_partial (cfg : JCfg) (arrivals : List (Nat × JMsg × Bool × String))
+    (hn : cfg.names.length = cfg.parents)
+    (hs : ∀ p ∈ JOn.forwarded cfg arrivals, p.1 < cfg.parents)
+    (ho : joinOrdered cfg ((JOn.forwarded cfg arrivals).map (fun p => (p.1, p.2.grp, p.2.time)))) :
+    (((JOn.run cfg arrivals).2.1).filterMap (joinIntoPoint cfg)).Perm (joinOutput cfg (JOn.forwarded cfg arrivals)) := by
+  rw [on_run_is_join_of_forwarded]
+  have h := join_pairs cfg (feedOps (JOn.forwarded cfg arrivals)) hn
+    (by intro op hop
+        simp only [feedOps, List.mem_map] at hop
+        obtain ⟨p, hp, rfl⟩ := hop
+        exact hs p hp)
+    (by have : stepsOf (feedOps (JOn.forwarded cfg arrivals)) = (JOn.forwarded cfg arrivals).map (fun p => (p.1, p.2.grp, p.2.time)) := by
+          simp [stepsOf, feedOps, JOp.srcOf, JOp.grp, JOp.rawTime]
+        rw [this]; exact ho)
+  rw [pointsOf_feedOps] at h
+  exact h
+
 /-- Full-strength statement of the `on()` pairing clause (stated, NOT proved; evaluated on every run by the spec
 oracle on the implementation's output, the same per-parent sequences replayed in three interleavings, and
-tied by correspondence): on the claimed domain (two parents, one specific and one general; at most one
-general point per general group and rounded time; per parent and general group the rounded times never go
-back) the joined points of the whole run are, up to permutation, `Spec.joinOnOutput`: every specific point
-joined with the general point of its general group and rounded time (if there is one), whatever the
-interleaving. -/
+tied by correspondence): on the claimed domain (`Spec.onDomain`: two parents, at most one of them specific, one
+general group per group, at most one general point per general group and rounded time, per parent and general
+group the rounded times never go back) the joined points of the whole run are, up to permutation,
+`Spec.joinOnOutput`: every specific point joined with the general point of its general group and rounded time
+(if there is one), whatever the interleaving. -/
 def on_pairs_specific_with_general_stmt : Prop :=
   ∀ (cfg : JCfg) (arr : List OnArrival), cfg.names.length = cfg.parents → onDomain cfg arr →
     (((JOn.run cfg (arr.map (fun a => (a.src, a.msg, a.specific, a.general)))).2.1).filterMap (joinIntoPoint cfg)).Perm
       (joinOnOutput cfg arr)
+
+/-- What remains to be proved for it (stated, NOT proved), entirely about the computable list `JOn.forwarded`: on the
+claimed domain the forwarded points come from parents in range, are in rounded-time order per group and
+parent, and their plain-join pairing is the `on()` pairing (every specific point forwarded exactly once, with
+the re-tagged general point of its general group and time exactly when there is one). -/
+def on_forwarded_is_pairing_stmt : Prop :=
+  ∀ (cfg : JCfg) (arr : List OnArrival), cfg.names.length = cfg.parents → onDomain cfg arr →
+    let fw := JOn.forwarded cfg (arr.map (fun a => (a.src, a.msg, a.specific, a.general)))
+    (∀ p ∈ fw, p.1 < cfg.parents) ∧ joinOrdered cfg (fw.map (fun p => (p.1, p.2.grp, p.2.time))) ∧
+    (joinOutput cfg fw).Perm (joinOnOutput cfg arr)
+
+/-- The reduction is exact: the remaining statement implies the full clause. -/
+theorem on_pairs_of_forwarded_pairing (h : on_forwarded_is_pairing_stmt) : on_pairs_specific_with_general_stmt := by
+  intro cfg arr hn hd
+  obtain ⟨h1, h2, h3⟩ := h cfg arr hn hd
+  exact (on_pairs_specific_with_general_partial cfg _ hn h1 h2).trans h3
+
+/-- Non-vacuity of the partial theorem and of the remaining statement: an instance (general parent lagging, one
+specific point without partner, a purged point) on which the hypotheses hold and the forwarded list pairs as
+`joinOnOutput` says. -/
+example : let cfg : JCfg := { parents := 2, tol := 0, fill := .num "i:0", names := ["s", "g"], delim := ".", sname := "" }
+    let sm (t : Int) (c v : String) : JMsg := { time := t, name := "m0", grp := "h=x,c=" ++ c, byName := false, dims := ["h", "c"], tags := [("h", "x"), ("c", c)], fields := [("v", v)] }
+    let gm (t : Int) (v : String) : JMsg := { time := t, name := "m1", grp := "h=x", byName := false, dims := ["h"], tags := [("h", "x")], fields := [("v", v)] }
+    let arr : List OnArrival := [⟨0, sm 10 "1" "i:1", true, "h=x"⟩, ⟨0, sm 10 "2" "i:2", true, "h=x"⟩, ⟨0, sm 12 "1" "i:3", true, "h=x"⟩,
+      ⟨1, gm 10 "i:4", false, "h=x"⟩, ⟨1, gm 13 "i:5", false, "h=x"⟩]
+    let fw := JOn.forwarded cfg (arr.map (fun a => (a.src, a.msg, a.specific, a.general)))
+    onDomain cfg arr ∧ (∀ p ∈ fw, p.1 < cfg.parents) ∧ joinOrdered cfg (fw.map (fun p => (p.1, p.2.grp, p.2.time))) ∧
+    fw.map (fun p => (p.1, p.2.time)) = [(0, 10), (1, 10), (0, 10), (1, 10), (0, 12)] ∧
+    ((joinOutput cfg fw).map (·.fields)).Perm ((joinOnOutput cfg arr).map (·.fields)) := by decide
+
+/-- The clause needs "at most one specific parent": two specific parents sending in one group are joined with
+each other by the groups (all other conjuncts of the domain hold), where the clause wants each alone. -/
+theorem on_both_parents_specific_join_each_other :
+    let cfg : JCfg := { parents := 2, tol := 0, fill := .num "i:0", names := ["s", "g"], delim := ".", sname := "" }
+    let sm (v : String) : JMsg := { time := 1, name := "m0", grp := "a", byName := false, dims := ["h", "c"], tags := [("h", "x"), ("c", "1")], fields := [("v", v)] }
+    let arr : List OnArrival := [⟨0, sm "i:1", true, "g"⟩, ⟨1, sm "i:2", true, "g"⟩]
+    ¬ onDomain cfg arr ∧
+    ((((JOn.run cfg (arr.map (fun a => (a.src, a.msg, a.specific, a.general)))).2.1).filterMap (joinIntoPoint cfg)).map (·.fields)) =
+      [[("s.v", "i:1"), ("g.v", "i:2")]] ∧
+    (joinOnOutput cfg arr).map (·.fields) = [[("s.v", "i:1"), ("g.v", "i:0")], [("s.v", "i:0"), ("g.v", "i:2")]] := by decide
+
+/-- The clause needs "one general group per group" (true of real points: the general group is computed from the
+point's own tags, but the model takes both IDs as inputs): if two specific points of ONE group carry different
+general groups, the first – purged alone, still pending in its join group – takes the match point that was
+sent with the second. -/
+theorem on_group_with_two_general_groups_mispairs :
+    let cfg : JCfg := { parents := 2, tol := 0, fill := .num "i:0", names := ["s", "g"], delim := ".", sname := "" }
+    let sm (t : Int) (grp c v : String) : JMsg := { time := t, name := "m0", grp := grp, byName := false, dims := ["h", "c"], tags := [("h", "x"), ("c", c)], fields := [("v", v)] }
+    let gm (t : Int) (g v : String) : JMsg := { time := t, name := "m1", grp := g, byName := false, dims := ["h"], tags := [("h", "x")], fields := [("v", v)] }
+    let arr : List OnArrival := [⟨0, sm 1 "a" "1" "i:1", true, "g1"⟩, ⟨1, gm 5 "g1" "i:9", false, "g1"⟩, ⟨0, sm 5 "z" "2" "i:7", true, "g1"⟩,
+      ⟨1, gm 1 "g2" "i:3", false, "g2"⟩, ⟨0, sm 1 "a" "1" "i:2", true, "g2"⟩]
+    ¬ onDomain cfg arr ∧
+    ((((JOn.run cfg (arr.map (fun a => (a.src, a.msg, a.specific, a.general)))).2.1).filterMap (joinIntoPoint cfg)).map (·.fields)) =
+      [[("s.v", "i:7"), ("g.v", "i:9")], [("s.v", "i:1"), ("g.v", "i:3")], [("s.v", "i:2"), ("g.v", "i:0")]] ∧
+    (joinOnOutput cfg arr).map (·.fields) =
+      [[("s.v", "i:1"), ("g.v", "i:0")], [("s.v", "i:7"), ("g.v", "i:9")], [("s.v", "i:2"), ("g.v", "i:3")]] := by decide
 
 /-- Non-vacuity of the statement: an instance (general parent lagging, one specific point without partner). -/
 example : let cfg : JCfg := { parents := 2, tol := 0, fill := .num "i:0", names := ["s", "g"], delim := ".", sname := "" }
